@@ -184,6 +184,19 @@ func (c05) Exec(seed int64, i int, tier string) Record {
 		return c05FnCase(CaseRng(seed, "C05", i), "box")
 	case 15:
 		return c05FnCase(CaseRng(seed, "C05", i), b7ReentName)
+	case 6:
+		// class panic-probe (b11_helpers.go): a call that ended in a panic of the caller's function is part of the history
+		r := CaseRng(seed, "C05", i)
+		acc := r.Chance(25)
+		viol, tags, info := b11PanicProbe(r, acc)
+		rec := Record{Text: "(panic probe)", Tags: append(tags, "class:panic-probe"), Info: info, Viol: viol}
+		if viol != "" {
+			rec.Class = "history-after-panic"
+		}
+		if len(tags) > 0 {
+			rec.Key = "panic-probe/" + strings.Join(tags, ",") + fmt.Sprint(acc)
+		}
+		return rec
 	}
 	r := CaseRng(seed, "C05", i)
 	var doc0 interface{}
